@@ -413,4 +413,177 @@ theorem fmPieces_bytes_iff (fm : FM) (y0 x0 c0 B : Nat) :
     obtain ⟨p, hp, hB, _⟩ := fmPieces_covers fm y0 x0 c0 y x c k h1 h2 h3 h4
     exact ⟨p, hp, h5 ▸ hB⟩
 
+
+/-! ### per-tile shifted footprint `fmPiecesS` -/
+
+theorem mem_shiftPieces {s : Int} {ps : List Piece} {q : Piece} :
+    q ∈ shiftPieces s ps ↔ ∃ p ∈ ps, q = { p with delta := p.delta + s } := by
+  unfold shiftPieces
+  rw [List.mem_map]
+  exact ⟨fun ⟨p, hp, h⟩ => ⟨p, hp, h.symm⟩, fun ⟨p, hp, h⟩ => ⟨p, hp, h.symm⟩⟩
+
+/-- all elements of an x-run on one side of `width0` lie in the tile of the run's first column -/
+theorem tileOf_left (fm : FM) (y x : Nat) (h : x < fm.width0) : tileOf fm y x = tileOf fm y 0 := by
+  unfold tileOf
+  have h0 : ¬ (0 ≥ fm.width0) := by omega
+  have hx : ¬ (x ≥ fm.width0) := by omega
+  simp only [hx, h0, if_false]
+
+theorem tileOf_right (fm : FM) (y x : Nat) (h : fm.width0 ≤ x) : tileOf fm y x = tileOf fm y fm.width0 := by
+  unfold tileOf
+  have h0 : fm.width0 ≥ fm.width0 := Nat.le_refl _
+  have hx : x ≥ fm.width0 := h
+  simp only [hx, h0, if_true]
+
+/-- the un-coalesced piece list of `fmPiecesS` -/
+def rawPiecesS (fm : FM) (y0 x0 c0 : Nat) (shifts : List Int) : List Piece :=
+  (List.range fm.height).flatMap fun y =>
+    shiftPieces (tileShift shifts (tileOf fm y 0)) (runPieces fm y0 x0 c0 y 0 (min fm.width fm.width0)) ++
+    shiftPieces (tileShift shifts (tileOf fm y fm.width0)) (runPieces fm y0 x0 c0 y fm.width0 fm.width)
+
+theorem fmPiecesS_eq (fm : FM) (y0 x0 c0 : Nat) (shifts : List Int) :
+    fmPiecesS fm y0 x0 c0 shifts = coalesce (rawPiecesS fm y0 x0 c0 shifts) := rfl
+
+theorem rawPiecesS_covers (fm : FM) (y0 x0 c0 : Nat) (shifts : List Int) (y x c k : Nat)
+    (hy : y < fm.height) (hx : x < fm.width) (hc : c < fm.depth) (hk : k < fm.elemBytes) :
+    ∃ p ∈ rawPiecesS fm y0 x0 c0 shifts, p.covers (fmAddr fm y x c + k) ∧
+      ((fm.nhcwb16 = true → c0 % 16 = 0) →
+        p.delta = (canon fm (y + y0) (x + x0) (c + c0) : Int) - (fmAddr fm y x c : Int) +
+          tileShift shifts (tileOf fm y x)) := by
+  unfold rawPiecesS
+  by_cases hw : x < fm.width0
+  · obtain ⟨p, hp, hcov, hd⟩ := runPieces_covers fm y0 x0 c0 y 0 (min fm.width fm.width0) x c k
+      (Nat.zero_le _) (by omega) (Or.inl (by omega)) hc hk
+    refine ⟨{ p with delta := p.delta + tileShift shifts (tileOf fm y 0) },
+      List.mem_flatMap.mpr ⟨y, List.mem_range.mpr hy, List.mem_append_left _ (mem_shiftPieces.mpr ⟨p, hp, rfl⟩)⟩,
+      hcov, fun h => ?_⟩
+    simp only
+    rw [hd h, tileOf_left fm y x hw]
+  · obtain ⟨p, hp, hcov, hd⟩ := runPieces_covers fm y0 x0 c0 y fm.width0 fm.width x c k
+      (by omega) hx (Or.inr (Nat.le_refl _)) hc hk
+    refine ⟨{ p with delta := p.delta + tileShift shifts (tileOf fm y fm.width0) },
+      List.mem_flatMap.mpr ⟨y, List.mem_range.mpr hy, List.mem_append_right _ (mem_shiftPieces.mpr ⟨p, hp, rfl⟩)⟩,
+      hcov, fun h => ?_⟩
+    simp only
+    rw [hd h, tileOf_right fm y x (by omega)]
+
+/-- 8S. coverage for the per-tile shifted footprint: the piece containing a byte of element `(y, x, c)`
+    carries `canon − fmAddr + shifts[tile(y, x)]` -/
+theorem fmPiecesS_covers (fm : FM) (y0 x0 c0 : Nat) (shifts : List Int) (y x c k : Nat)
+    (hy : y < fm.height) (hx : x < fm.width) (hc : c < fm.depth) (hk : k < fm.elemBytes) :
+    ∃ p ∈ fmPiecesS fm y0 x0 c0 shifts, p.covers (fmAddr fm y x c + k) ∧
+      ((fm.nhcwb16 = true → c0 % 16 = 0) →
+        p.delta = (canon fm (y + y0) (x + x0) (c + c0) : Int) - (fmAddr fm y x c : Int) +
+          tileShift shifts (tileOf fm y x)) := by
+  obtain ⟨p, hp, hcov, hd⟩ := rawPiecesS_covers fm y0 x0 c0 shifts y x c k hy hx hc hk
+  obtain ⟨q, hq, hqcov, hqd⟩ :=
+    (coalesce_preserves_bytes (rawPiecesS fm y0 x0 c0 shifts) (fmAddr fm y x c + k) p.delta).mpr ⟨p, hp, hcov, rfl⟩
+  exact ⟨q, hq, hqcov, fun h => by rw [hqd]; exact hd h⟩
+
+theorem rawPiecesS_exact (fm : FM) (y0 x0 c0 : Nat) (shifts : List Int) (p : Piece)
+    (hp : p ∈ rawPiecesS fm y0 x0 c0 shifts) (B : Nat) (hB : p.covers B) :
+    ∃ y x c k, y < fm.height ∧ x < fm.width ∧ c < fm.depth ∧ k < fm.elemBytes ∧ B = fmAddr fm y x c + k ∧
+      ((fm.nhcwb16 = true → c0 % 16 = 0) →
+        p.delta = (canon fm (y + y0) (x + x0) (c + c0) : Int) - (fmAddr fm y x c : Int) +
+          tileShift shifts (tileOf fm y x)) := by
+  unfold rawPiecesS at hp
+  obtain ⟨y, hy, hp⟩ := List.mem_flatMap.mp hp
+  rw [List.mem_range] at hy
+  rcases List.mem_append.mp hp with hp | hp
+  · obtain ⟨q, hq, rfl⟩ := mem_shiftPieces.mp hp
+    obtain ⟨x, c, k, _, hx, h1, h2, h3, h4⟩ := runPieces_exact fm y0 x0 c0 y 0 (min fm.width fm.width0)
+      (Or.inl (by omega)) q hq B hB
+    refine ⟨y, x, c, k, hy, by omega, h1, h2, h3, fun h => ?_⟩
+    simp only
+    rw [h4 h, tileOf_left fm y x (by omega)]
+  · obtain ⟨q, hq, rfl⟩ := mem_shiftPieces.mp hp
+    obtain ⟨x, c, k, hxa, hx, h1, h2, h3, h4⟩ := runPieces_exact fm y0 x0 c0 y fm.width0 fm.width
+      (Or.inr (Nat.le_refl _)) q hq B hB
+    refine ⟨y, x, c, k, hy, hx, h1, h2, h3, fun h => ?_⟩
+    simp only
+    rw [h4 h, tileOf_right fm y x hxa]
+
+/-- 9S. exactness for the per-tile shifted footprint -/
+theorem fmPiecesS_exact (fm : FM) (y0 x0 c0 : Nat) (shifts : List Int) (p : Piece)
+    (hp : p ∈ fmPiecesS fm y0 x0 c0 shifts) (B : Nat) (hB : p.covers B) :
+    ∃ y x c k, y < fm.height ∧ x < fm.width ∧ c < fm.depth ∧ k < fm.elemBytes ∧ B = fmAddr fm y x c + k ∧
+      ((fm.nhcwb16 = true → c0 % 16 = 0) →
+        p.delta = (canon fm (y + y0) (x + x0) (c + c0) : Int) - (fmAddr fm y x c : Int) +
+          tileShift shifts (tileOf fm y x)) := by
+  obtain ⟨q, hq, hqB, hqd⟩ :=
+    (coalesce_preserves_bytes (rawPiecesS fm y0 x0 c0 shifts) B p.delta).mp ⟨p, hp, hB, rfl⟩
+  obtain ⟨y, x, c, k, h1, h2, h3, h4, h5, h6⟩ := rawPiecesS_exact fm y0 x0 c0 shifts q hq B hqB
+  exact ⟨y, x, c, k, h1, h2, h3, h4, h5, fun h => by rw [← hqd]; exact h6 h⟩
+
+/-- the shifts change tags only: `fmPiecesS` touches exactly the bytes `fmPieces` touches -/
+theorem fmPiecesS_bytes_iff (fm : FM) (y0 x0 c0 : Nat) (shifts : List Int) (B : Nat) :
+    (∃ p ∈ fmPiecesS fm y0 x0 c0 shifts, p.covers B) ↔ (∃ p ∈ fmPieces fm y0 x0 c0, p.covers B) := by
+  rw [fmPieces_bytes_iff]
+  constructor
+  · intro ⟨p, hp, hB⟩
+    obtain ⟨y, x, c, k, h1, h2, h3, h4, h5, _⟩ := fmPiecesS_exact fm y0 x0 c0 shifts p hp B hB
+    exact ⟨y, x, c, k, h1, h2, h3, h4, h5⟩
+  · intro ⟨y, x, c, k, h1, h2, h3, h4, h5⟩
+    obtain ⟨p, hp, hB, _⟩ := fmPiecesS_covers fm y0 x0 c0 shifts y x c k h1 h2 h3 h4
+    exact ⟨p, hp, h5 ▸ hB⟩
+
+/-! ### a uniform shift is the old single-shift behaviour -/
+
+theorem shiftPieces_nil (s : Int) : shiftPieces s [] = [] := rfl
+theorem shiftPieces_cons (s : Int) (p : Piece) (ps : List Piece) :
+    shiftPieces s (p :: ps) = { p with delta := p.delta + s } :: shiftPieces s ps := rfl
+
+theorem shiftPieces_append (s : Int) (a b : List Piece) :
+    shiftPieces s (a ++ b) = shiftPieces s a ++ shiftPieces s b := by
+  unfold shiftPieces; exact List.map_append
+
+theorem shiftPieces_zero (ps : List Piece) : shiftPieces 0 ps = ps := by
+  induction ps with
+  | nil => rfl
+  | cons p ps ih => rw [shiftPieces_cons, ih, Int.add_zero]
+
+theorem coalesce_shiftPieces (s : Int) (ps : List Piece) :
+    coalesce (shiftPieces s ps) = shiftPieces s (coalesce ps) := by
+  induction ps with
+  | nil => rfl
+  | cons p rest ih =>
+    rw [shiftPieces_cons, coalesce_cons, coalesce_cons, ih]
+    cases hc : coalesce rest with
+    | nil => rfl
+    | cons q qs =>
+      simp only [shiftPieces_cons]
+      by_cases h : p.addr + p.len = q.addr ∧ p.delta = q.delta
+      · rw [if_pos h, if_pos ⟨h.1, by rw [h.2]⟩]; rfl
+      · rw [if_neg h, if_neg (fun h' => h ⟨h'.1, by have := h'.2; omega⟩)]; rfl
+
+theorem flatMap_shiftPieces {α : Type} (s : Int) (l : List α) (f : α → List Piece) :
+    l.flatMap (fun a => shiftPieces s (f a)) = shiftPieces s (l.flatMap f) := by
+  induction l with
+  | nil => rfl
+  | cons a l ih => rw [List.flatMap_cons, List.flatMap_cons, ih, shiftPieces_append]
+
+theorem tileOf_lt (fm : FM) (y x : Nat) : tileOf fm y x < 4 := by
+  unfold tileOf
+  simp only
+  split <;> split <;> omega
+
+/-- when all four tiles have the same shift `s`, `fmPiecesS` is `fmPieces` with every tag shifted by `s`
+    (what the single-shift checker compared against) -/
+theorem fmPiecesS_uniform (fm : FM) (y0 x0 c0 : Nat) (shifts : List Int) (s : Int)
+    (h : ∀ t, t < 4 → tileShift shifts t = s) :
+    fmPiecesS fm y0 x0 c0 shifts = shiftPieces s (fmPieces fm y0 x0 c0) := by
+  unfold fmPiecesS fmPieces
+  rw [← coalesce_shiftPieces, ← flatMap_shiftPieces]
+  congr 2
+  funext y
+  rw [h _ (tileOf_lt fm y 0), h _ (tileOf_lt fm y fm.width0), shiftPieces_append]
+
+theorem fmPiecesS_zero (fm : FM) (y0 x0 c0 : Nat) :
+    fmPiecesS fm y0 x0 c0 [0, 0, 0, 0] = fmPieces fm y0 x0 c0 := by
+  rw [fmPiecesS_uniform fm y0 x0 c0 [0, 0, 0, 0] 0, shiftPieces_zero]
+  intro t ht
+  unfold tileShift
+  match t, ht with
+  | 0, _ | 1, _ | 2, _ | 3, _ => rfl
+
 end VelaVerif.Footprint
